@@ -134,3 +134,6 @@ example : holds_C02 false 1
 end Fc
 
 #print axioms Fc.C02_exactly_once_group
+#print axioms Fc.C02g_needs_single_drop
+#print axioms Fc.C02g_needs_fresh
+#print axioms Fc.C02g_needs_kind
